@@ -8,6 +8,8 @@ package main
 
 import (
 	"fmt"
+	"go/constant"
+	"go/token"
 
 	"golang.org/x/tools/go/ssa"
 )
@@ -64,7 +66,169 @@ func runC03Rollback(c *Ctx, hc *ssa.Function, reach map[*ssa.Function]bool) {
 			}
 		}
 	}
+	// a Remove of the created path inside a function literal of the creating function (a deferred rollback):
+	// the literal must be registered/called only past the success edge, or guard the Remove by a captured flag
+	// that is set only past the success edge
+	for _, af := range p.SrcFuncs {
+		par := af.Parent()
+		if par == nil || !reach[rootFn(af)] {
+			continue
+		}
+		for _, call := range calls(af) {
+			bc := asBackendCall(call)
+			if bc == nil || bc.OnFile || (bc.Method != "Remove" && bc.Method != "RemoveAll") {
+				continue
+			}
+			bind, deref := freeBinding(af, call.Common().Args[0])
+			if bind == nil {
+				continue
+			}
+			for _, cc := range calls(par) {
+				cbc := asBackendCall(cc)
+				if cbc == nil || cbc.OnFile {
+					continue
+				}
+				class, idx := nsMutationPaths(cbc)
+				if class != "ns-create" || len(idx) == 0 {
+					continue
+				}
+				succ, _, ok := errSuccessEdge(cc)
+				if !ok {
+					continue
+				}
+				arg := cc.Common().Args[idx[0]]
+				same := arg == bind
+				if deref {
+					u, isU := arg.(*ssa.UnOp)
+					same = isU && u.X == bind
+				}
+				if !same {
+					continue
+				}
+				n++
+				key := fmt.Sprintf("remove=%s:%s#%d", fnKey(af), shortCallee(call), ordinal(af, call))
+				past := func(b *ssa.BasicBlock) bool { return b == succ || succ.Dominates(b) }
+				good := true
+				uses := 0
+				for _, mc := range closuresOf(par, af) {
+					for _, r := range *mc.Referrers() {
+						switch u := r.(type) {
+						case *ssa.Defer:
+							uses++
+							good = good && past(u.Block())
+						case *ssa.Call:
+							uses++
+							good = good && past(u.Block())
+						case *ssa.DebugRef:
+						default:
+							uses++
+							good = false
+						}
+					}
+				}
+				if uses == 0 {
+					good = false
+				}
+				if !good {
+					good = guardedByOwnFlag(af, par, call.Block(), past)
+				}
+				c.verdictIf(good, P, "rollback-own", key, p.instrPos(call), "only rolls back what this request created",
+					"a function literal of the CREATE path removes the target although it can run when the creating call did not succeed (e.g. it failed because the name already exists): an object that existed before the request is deleted")
+			}
+		}
+	}
 	if n == 0 {
 		c.ok(P, "rollback-own", "remove=none", p.pos(hc.Pos()), "the CREATE tree never removes the created path")
 	}
+}
+
+// freeBinding: the value the enclosing function binds to the free variable v reads (directly or through a
+// load of the captured cell).
+func freeBinding(af *ssa.Function, v ssa.Value) (ssa.Value, bool) {
+	deref := false
+	if u, ok := v.(*ssa.UnOp); ok && u.Op == token.MUL {
+		v = u.X
+		deref = true
+	}
+	fv, ok := v.(*ssa.FreeVar)
+	if !ok {
+		return nil, false
+	}
+	idx := -1
+	for i, f := range af.FreeVars {
+		if f == fv {
+			idx = i
+		}
+	}
+	par := af.Parent()
+	if idx < 0 || par == nil {
+		return nil, false
+	}
+	for _, mc := range closuresOf(par, af) {
+		if idx < len(mc.Bindings) {
+			return mc.Bindings[idx], deref
+		}
+	}
+	return nil, false
+}
+
+func closuresOf(par, af *ssa.Function) []*ssa.MakeClosure {
+	var out []*ssa.MakeClosure
+	for _, b := range par.Blocks {
+		for _, in := range b.Instrs {
+			if mc, ok := in.(*ssa.MakeClosure); ok && mc.Fn == ssa.Value(af) {
+				out = append(out, mc)
+			}
+		}
+	}
+	return out
+}
+
+// guardedByOwnFlag: block b of the literal af is dominated by the true edge of a test of a captured boolean
+// cell that the enclosing function sets to anything but false only past the success edge.
+func guardedByOwnFlag(af, par *ssa.Function, b *ssa.BasicBlock, past func(*ssa.BasicBlock) bool) bool {
+	for d := b; d != nil && d.Idom() != nil; d = d.Idom() {
+		id := d.Idom()
+		ifi := blockIf(id)
+		if ifi == nil || len(id.Succs) != 2 || id.Succs[0] != d || len(d.Preds) != 1 {
+			continue
+		}
+		bind, deref := freeBinding(af, ifi.Cond)
+		al, isAl := bind.(*ssa.Alloc)
+		if !deref || !isAl || al.Referrers() == nil {
+			continue
+		}
+		ok, sets := true, 0
+		for _, r := range *al.Referrers() {
+			switch u := r.(type) {
+			case *ssa.Store:
+				if u.Addr != ssa.Value(al) {
+					ok = false
+					continue
+				}
+				if k, isC := u.Val.(*ssa.Const); isC && k.Value != nil && k.Value.Kind() == constant.Bool && !constant.BoolVal(k.Value) {
+					continue
+				}
+				sets++
+				ok = ok && past(u.Block())
+			case *ssa.UnOp, *ssa.MakeClosure, *ssa.DebugRef:
+			default:
+				ok = false
+			}
+		}
+		// the literal itself must not set the flag
+		for _, bb := range af.Blocks {
+			for _, in := range bb.Instrs {
+				if st, isSt := in.(*ssa.Store); isSt {
+					if bd, _ := freeBinding(af, st.Addr); bd == bind {
+						ok = false
+					}
+				}
+			}
+		}
+		if ok && sets > 0 {
+			return true
+		}
+	}
+	return false
 }
